@@ -267,6 +267,12 @@ def run_job(doc, log):
     if override:
         point_data["Displacement"] = my_disp
     cell_data = {"Mean J": my_cell} if (opts.get("custom_cell") or any(f["where"] == "cell" for f in data_fault)) else None
+    # an empty dictionary instead of None (seed-derived, no extra generator draw)
+    if dd["seed"] % 3 == 0:
+        point_data = {} if point_data is None else point_data
+        cell_data = {} if cell_data is None else cell_data
+        log.count("empty-data-dicts")
+    keys_before = (None if point_data is None else list(point_data.items()), None if cell_data is None else list(cell_data.items()))
     filename = opts.get("stem", "result") + ".xdmf"
     seam = H5Seam(dd.get("faults", []), log, eng.fired)
     xmlf = [f for f in dd.get("faults", []) if f["kind"] == "xml_disk_full"]
@@ -281,6 +287,9 @@ def run_job(doc, log):
             point_data_default=opts.get("point_default", True),
             cell_data_default=opts.get("cell_default", True),
         )
+    keys_after = (None if point_data is None else list(point_data.items()), None if cell_data is None else list(cell_data.items()))
+    if keys_after != keys_before:
+        raise Violation(PROP, "frame-content", "Job.evaluate changed the caller's point_data / cell_data dictionaries", site="Job.evaluate.caller-dicts")
     if exc is not None and not isinstance(exc, (ValueError, InjectedFault, KeyboardInterrupt)):
         raise Violation(PROP, "early-stop", f"undocumented exception {type(exc).__name__}: {exc}", site="job.exc")
     if dsk.fired:
@@ -356,11 +365,11 @@ def run_job(doc, log):
             want = np.pad(u, ((0, 0), (0, 3 - u.shape[1]))) * (1000.0 if override else 1.0)
             if not np.array_equal(pd["Displacement"], want):
                 raise Violation(PROP, "frame-content", f"frame {k}: Displacement differs from the displacement field of substep {k} (max {np.abs(pd['Displacement']-want).max():.3e})", site="file.displacement", fault=fk)
-        if point_data is not None:
+        if point_data and "Nodal Norm" in point_data:
             if not np.array_equal(np.asarray(pd.get("Nodal Norm")).ravel(), custom["point"][k]):
                 raise Violation(PROP, "frame-content", f"frame {k}: custom point data differ from what the callable returned", site="file.custom-point", fault=fk)
             log.count("custom-data-compared")
-        if cell_data is not None:
+        if cell_data and "Mean J" in cell_data:
             got = cd.get("Mean J")
             if got is None or not np.array_equal(np.asarray(got[0]).ravel(), custom["cell"][k]):
                 raise Violation(PROP, "frame-content", f"frame {k}: custom cell data differ from what the callable returned", site="file.custom-cell", fault=fk)
